@@ -172,7 +172,7 @@ func (d *drv) rest(what string) { d.restOpt(what, true) }
 func (d *drv) restLight(what string) { d.restOpt(what, false) }
 
 func (d *drv) restOpt(what string, coq bool) {
-	q := quiesce(d.base, d.kn, true, 8*time.Second, d.allFx()...)
+	q := quiesce(d.base, d.kn, true, 60*time.Second, d.allFx()...) // returns as soon as the server is clean
 	for _, det := range q.detail {
 		kind := det
 		if i := strings.IndexAny(kind, ":\n"); i > 0 {
@@ -338,7 +338,7 @@ func abuseDriver(seed uint64, n int, outV, outJSON string, args []string) {
 	time.Sleep(50 * time.Millisecond)
 	d.base, _ = brGoroutines()
 	d.kn = newKnown()
-	if q := quiesce(d.base, d.kn, true, 8*time.Second, d.allFx()...); len(q.detail) > 0 {
+	if q := quiesce(d.base, d.kn, true, 60*time.Second, d.allFx()...); len(q.detail) > 0 {
 		d.fail("the idle server is not at rest", strings.Join(q.detail, "\n"))
 	}
 
